@@ -396,6 +396,29 @@ def big_scenarios(prop):
         out.append({"case": f"{prop}-big{n}", "instance": "bgpfu", "eph0": [], "runs": runs, "meta": {"family": "big", "ranges_per_family": n}})
     return out
 
+def c19_binary_scenarios(prop):
+    """C19 with the unmodified binary in daemon mode (command line, start-up and the loop as shipped): the FIRST run
+    fails - router unreachable, error reply to <open-configuration>, IRR data unobtainable for the only policy is not a
+    failure - the daemon must stay up, run again when it gets SIGHUP, converge, and leave with status 0 on SIGTERM."""
+    out = []
+    for k, first in enumerate(["unreachable", "open-error", "commit-error", "fine"]):
+        irr = Irr(); running = []; policies = {}
+        expr = irr.asset_with(["a"], ["c"])
+        running.append(stmt("p", f"/* bgpfu-fltr: {expr} */"))
+        policies["p"] = exp(True, True, "ok", ["a"], ["c"], expr, f"first run: {first}")
+        def run(router=None, faults=(), repeat=False):
+            r = {"running": running, "irr": irr.db, "faults": list(faults), "repeat": repeat,
+                 "expect": {"prop": prop, "c16": False, "policies": policies}}
+            if router:
+                r["router"] = router
+            return r
+        r1 = {"unreachable": run(router="unreachable"), "open-error": run(faults=[{"target": "open", "index": 0, "kind": "rpc-error"}]),
+              "commit-error": run(faults=[{"target": "commit", "index": 0, "kind": "rpc-error"}]), "fine": run()}[first]
+        out.append({"case": f"{prop}-bin{k}", "instance": "bgpfu", "eph0": [],
+                    "daemon": {"period": 1, "sessions": 3, "reset_before": []},
+                    "runs": [r1, run(), run(repeat=True)], "meta": {"family": "daemon-binary", "first_run": first}})
+    return out
+
 def transient_scenarios(prop):
     """C17 at the level of the agent: several policies carry the SAME filter expression, and the IRR answers one
     query of that expression with an error the first time it sees it (transient trouble).  Whichever policy is
